@@ -1079,6 +1079,7 @@ struct W2
     static std::string crash_props (const CrashRec& c)
     {
       bool faulted = c.op.f1 != 0;
+      if (c.how == "terminate" && c.op.kind == OP2_SWAP_NM) return faulted ? "C18,C16,C06" : "C18,C16";
       if (c.how == "terminate") return faulted ? "C18,C06" : "C18";
       if (c.how == "hang") return faulted ? "C06,C01" : "C01";
       std::string p = ET::hooked ? "C03,C02" : "C13,C03,C02";
